@@ -493,3 +493,20 @@ Proof.
   split. { vm_compute. reflexivity. }
   vm_compute. reflexivity.
 Qed.
+
+(* ------------------------------------------------------------ T1 ties of the repaired sites *)
+(* a changed shape of the source flips these generated values and breaks the lemmas *)
+Lemma repaired_shapes :
+  compare_checks_rfc_size = true /\ formerr_plain_response = true /\ tsig_class_ttl_checked = true /\
+  server_seq_applies_full_mac = false /\ server_code_badsig = RC_BADSIG /\ server_code_other = RC_FORMERR /\
+  server_code_badtrunc = RC_BADTRUNC /\ server_mac_before_time = true.
+Proof. repeat split. Qed.
+
+Lemma prior_mac_prefix_width m : length (apply_signature [] m) = (N.to_nat prior_mac_len_prefix_octets + length m)%nat.
+Proof. unfold apply_signature. cbn [app]. rewrite app_length. reflexivity. Qed.
+
+Lemma server_mac_size_formerr_now mac k w now t sm a :
+  from_message w = Ok t -> alg_from_name (mt_algname t) = Some a -> store_get k (mt_owner t) a = true ->
+  stripped w t = Ok sm -> within_len_bounds (k_alg k) (len (mt_mac t)) = false ->
+  server_request mac k w now = Err (SE_UNSIGNED + RC_FORMERR).
+Proof. intros. eapply (server_mac_size_formerr mac); eauto. Qed.
